@@ -183,6 +183,25 @@ CopyAtt(t1, name, t2, rc) ==
     /\ UNCHANGED <<dims, numrecs, mode, fresh, fillmode, fmt, saved, exists>>
     /\ hist' = H([c |-> "copy_att", t1 |-> t1, name |-> name, t2 |-> t2, rc |-> rc])
 
+(* ncmpi_copy_att with ANOTHER open file as the source: attribute a of that file becomes an attribute of target t2 here,
+   under the rules of a put of the same attribute (define mode, or data mode when it does not grow); the source file is
+   not this model's business -- the trace specification requires that its bytes do not change *)
+CopyAttFrom(a, t2, rc) ==
+    /\ IF t2 # -1 /\ (t2 < 0 \/ t2 >= Len(vars))
+         THEN rc = "NC_ENOTVAR" /\ UNCHANGED <<gatts, vars>>
+         ELSE /\ rc \in PutAttRcs(t2, a)
+              /\ IF rc = "NC_NOERR"
+                   THEN LET j == IdxOf(AttsOf(t2), a.name) IN
+                        SetAtts(t2, IF j = 0 THEN Append(AttsOf(t2), a) ELSE [AttsOf(t2) EXCEPT ![j] = a])
+                   ELSE UNCHANGED <<gatts, vars>>
+    /\ UNCHANGED <<dims, numrecs, mode, fresh, fillmode, fmt, saved, exists>>
+    /\ hist' = H([c |-> "copy_att_from", a |-> a, t2 |-> t2, rc |-> rc])
+
+(* ... and with this file as the source, another file as the destination: nothing changes here, whatever happens there *)
+CopyAttTo(t1, name, rc) ==
+    /\ UNCHANGED state
+    /\ hist' = H([c |-> "copy_att_to", t1 |-> t1, name |-> name, rc |-> rc])
+
 (* set_fill rewrites the per-variable switch of every variable defined so far *)
 SetFill(m, rc) ==
     /\ rc = IF ~InDef THEN "NC_ENOTINDEFINE" ELSE "NC_NOERR"
